@@ -9,7 +9,8 @@ use metrique_writer::EntrySink;
 use metrique_writer::sink::{BackgroundQueue, BackgroundQueueBuilder};
 use std::collections::{HashMap, HashSet, VecDeque};
 use std::sync::atomic::{AtomicBool, AtomicU64, Ordering};
-use std::sync::{Arc, Barrier};
+use std::sync::Arc;
+use vcommon::sync::SpinGate as Barrier;
 use std::time::{Duration, Instant};
 use vcommon::serde_json::{Value, json};
 use vcommon::stream::{Ev, IdEntry, StreamShared, id_producer, id_seq, make_id};
@@ -195,7 +196,7 @@ fn seq_history_inner(plan: &SeqPlan, open_call: &AtomicU64) -> SeqOut {
 }
 
 fn gen_seq_plan(rng: &mut Rng) -> SeqPlan {
-    let capacity = *rng.pick(&[1usize, 1, 2, 2, 3, 4, 7, 8, 16, 33]);
+    let capacity = if is_miri() || rng.below(12) != 0 { *rng.pick(&[1usize, 1, 2, 2, 3, 4, 7, 8, 16, 33]) } else { *rng.pick(&[100usize, 1000, 1024, 5000]) };
     let rounds = (0..1 + rng.below(6))
         .map(|_| {
             let burst = match rng.below(4) {
@@ -355,7 +356,7 @@ fn conc_inner(plan: &ConcPlan, open_calls: &Arc<AtomicU64>) -> (Vec<(u64, u64, u
 }
 
 fn gen_conc_plan(rng: &mut Rng, thorough: bool) -> ConcPlan {
-    let capacity = *rng.pick(&[1usize, 2, 3, 4, 8, 16, 64, 256]);
+    let capacity = *rng.pick(&[1usize, 2, 3, 4, 8, 16, 64, 256, 1000, 4096]);
     ConcPlan {
         capacity,
         producers: 1 + rng.below(6) as u32,
@@ -369,7 +370,7 @@ fn gen_conc_plan(rng: &mut Rng, thorough: bool) -> ConcPlan {
 fn native_main(args: &Args, rep: &Report) {
     rep.rule(
         "(a) sequential histories: one producer, writer held at a fuel gate inside next() with one popped entry in hand, \
-         random bursts / amounts of writer progress, capacities {1,2,3,4,7,8,16,33}; the stream log must EQUAL a displace-oldest \
+         random bursts / amounts of writer progress, capacities {1,2,3,4,7,8,16,33} and, in 1 of 12 histories, {100,1000,1024,5000}; the stream log must EQUAL a displace-oldest \
          reference ring and the overflow counter the displaced count. (b) concurrent histories: 1-6 producers against a \
          stalled / slow / free writer; per-producer order, conservation appended = delivered + overflow counter, and every lost entry \
          has >= capacity later appends. Appends must return while the gate is closed. distinct = distinct plans / delivery signatures with loss",
